@@ -1208,6 +1208,8 @@ type typeParser struct {
 	input  string
 	index  int
 	logger StdLogger
+	// depth of the class node being parsed, see maxTypeNesting
+	depth int
 }
 
 // the type definition parser result
@@ -1414,6 +1416,12 @@ func (class *typeParserClassNode) asTypeInfo() TypeInfo {
 
 // CLASS := ID [ PARAMS ]
 func (t *typeParser) parseClassNode() (node *typeParserClassNode, ok bool) {
+	if t.depth > maxTypeNesting {
+		return nil, false
+	}
+	t.depth++
+	defer func() { t.depth-- }()
+
 	t.skipWhitespace()
 
 	startIndex := t.index
